@@ -5,6 +5,8 @@ D=/verif/seeded/${P}_$K
 [ -f $D/patch.diff ] || { mkdir -p $D; cp /tmp/seed/$P.out/$K/{patch.diff,demo.diff,meta.json} $D/ 2>/dev/null; }
 cd /repo && git diff --quiet || { echo "/repo is dirty"; exit 3; }
 git -C /repo apply $D/patch.diff || { echo "patch does not apply"; exit 3; }
+cp /verif/evidence/$P.json /tmp/evidence_$P.bak 2>/dev/null
 cd /verif && ( time ./check $P --tier $TIER ) > $D/check_$TIER.log 2>&1; RC=$?
 git -C /repo checkout -- . 
+cp /verif/evidence/$P.json $D/evidence_with_patch.json 2>/dev/null; cp /tmp/evidence_$P.bak /verif/evidence/$P.json 2>/dev/null
 echo "$P/$K $TIER rc=$RC: $(grep -E '^(VIOLATION|UNDECIDED|OK|KNOWN)' $D/check_$TIER.log | head -2 | tr '\n' ' ' | cut -c1-250)"
